@@ -87,8 +87,6 @@ Lemma st_finish_keeps i : keeps (st_finish c i).
 Proof. unfold st_finish. keeps_cases. Qed.
 Lemma st_wake_keeps now i : keeps (st_wake c ivl eps now i).
 Proof. unfold st_wake. keeps_cases. Qed.
-Lemma st_stale_keeps i : keeps (st_stale c i).
-Proof. unfold st_stale. keeps_cases. Qed.
 Lemma st_mark_keeps i : keeps (st_mark c fin i).
 Proof. unfold st_mark. keeps_cases. Qed.
 Lemma st_hidden_keeps i : keeps (st_hidden c i).
@@ -109,8 +107,7 @@ Proof.
   unfold pass_node. intros Hg.
   destruct (st_after_keeps i r Hg) as [G1 V1].
   destruct (st_finish_keeps i _ G1) as [G2 V2].
-  destruct (st_wake_keeps now i _ G2) as [G3a V3a].
-  destruct (st_stale_keeps i _ G3a) as [G3 V3].
+  destruct (st_wake_keeps now i _ G2) as [G3 V3].
   destruct (st_mark_keeps i _ G3) as [G4 V4].
   destruct (st_hidden_keeps i _ G4) as [G5 V5].
   destruct (st_setup_keeps i _ G5) as [G6 V6].
